@@ -1,0 +1,11 @@
+//go:build verif
+
+// Frame-only contract of the bitcoin keeper's dequeue entry point called from x/goat (comment-only).
+// TRUSTED (not verified here): the function pops the pending bridge transactions and, when there are any,
+// writes the shortened queue and the advanced nonce back.
+package keeper
+
+//@ func (Keeper).DequeueBitcoinModuleTx
+//@ property C08 C09
+//@ trusted
+//@ modifies st.bitcoin.EthTxQueue, st.bitcoin.EthTxNonce
